@@ -27,7 +27,8 @@ var fsKinds = []string{"undefined", "null", "boolean", "number", "string", "obje
 	"regexp_neg", "error_child", "proto_null", "date_invalid", "string_obj", "args", "frozen_array", "sparse", "bound", "empty_string", "infinity", "pos_infinity", "max_int", "min_int", "tiny",
 	"hs_group", "hs_class", "hs_backslash", "hs_quant", "hs_percent", "hs_surrogate", "hs_long", "hs_json",
 	"nested_arrays", "mixed_array", "array_of_arrays_mixed", "regexp_proto", "bound_bare", "utf16_digits", "utf16_surrogate", "fn_src_break", "dollar_nn", "date_proto", "error_proto", "string_proto", "array_proto", "function_proto", "number_proto", "boolean_proto",
-	"nonext_string_fffd", "nonext_array", "nonext_args", "sealed_fn", "frozen_string_wide", "nonext_date", "nonext_regexp"}
+	"nonext_string_fffd", "nonext_array", "nonext_args", "sealed_fn", "frozen_string_wide", "nonext_date", "nonext_regexp",
+	"go_slice", "go_map", "go_struct", "go_array", "go_ptr_struct", "go_slice_iface", "go_func", "go_nil_slice", "go_map_int"}
 
 // kinds used when two positions vary together (the full product of all kinds
 // would be 50x50 per function)
@@ -110,6 +111,7 @@ function __mk(kind){
   case 'frozen_string_wide': return Object.freeze(new String('\u4e2d\ud83d\ude00\ud800'));
   case 'nonext_date': return Object.preventExtensions(new Date(0));
   case 'nonext_regexp': return Object.preventExtensions(/a/g);
+  case 'go_slice': case 'go_map': case 'go_struct': case 'go_array': case 'go_ptr_struct': case 'go_slice_iface': case 'go_func': case 'go_nil_slice': case 'go_map_int': return hgo(kind);
   case 'trap': return __mkTrap(false);
   case 'trapfn': return __mkTrap(true);
   }
@@ -133,6 +135,19 @@ type FSCase struct {
 }
 
 type fsEngine struct{}
+
+// goStructT is the Go struct handed to scripts by the go_struct kinds.
+type goStructT struct {
+	X int
+	Y string
+	Z []string
+	M map[string]interface{}
+	f int //nolint:unused
+}
+
+func (g goStructT) Get() int       { return g.X }
+func (g *goStructT) Set(x int)     { g.X = x }
+func (g goStructT) String() string { return "goStructT" }
 
 func (fsEngine) Name() string     { return "faultsweep" }
 func (fsEngine) Property() string { return "C02" }
@@ -169,6 +184,34 @@ func newFSRuntime() *fsRuntime {
 		default:
 		}
 		return otto.UndefinedValue()
+	})
+	r.vm.Set("hgo", func(call otto.FunctionCall) otto.Value {
+		var gv interface{}
+		switch call.Argument(0).String() {
+		case "go_slice":
+			gv = []int{1, 2, 3}
+		case "go_map":
+			gv = map[string]int{"a": 1, "b": 2}
+		case "go_struct":
+			gv = goStructT{X: 1, Y: "y", Z: []string{"z"}}
+		case "go_array":
+			gv = [3]float64{1.5, 2, 3}
+		case "go_ptr_struct":
+			gv = &goStructT{X: 2, Y: "p", M: map[string]interface{}{"k": 1}}
+		case "go_slice_iface":
+			gv = []interface{}{1, "a", nil, []int{1}, map[string]int{"q": 1}}
+		case "go_func":
+			gv = func(a int, b string) (int, error) { return a + len(b), nil }
+		case "go_nil_slice":
+			gv = []string(nil)
+		case "go_map_int":
+			gv = map[int]string{1: "one", 2: "two"}
+		}
+		v, err := call.Otto.ToValue(gv)
+		if err != nil {
+			return otto.UndefinedValue()
+		}
+		return v
 	})
 	if _, err := r.vm.Run(fsPreludeJS); err != nil {
 		fatalf("harness: faultsweep prelude: %v", err)
@@ -548,6 +591,11 @@ func execPropSweep(c *FSCase, st *Stats) (*Violation, interface{}, bool) {
 					r = newFSRuntime()
 					continue
 				}
+				if collectMode {
+					st.Probes["COLLECT "+x.Class+" | "+x.Key+" | "+clip(x.Detail)]++
+					r = newFSRuntime()
+					continue
+				}
 				return x, &FSCase{Engine: "faultsweep", Prog: src, Fault: "prop"}, true
 			}
 			if d := r.vm.VerifScopeDepth(); d != 0 {
@@ -874,6 +922,15 @@ func execAPIState(c *FSCase, st *Stats) (*Violation, interface{}, bool) {
 		return otto.UndefinedValue()
 	})
 	try("Context", func() { vm.Context(); vm.ContextLimit(2) })
+	try("host function entered from Go with the runtime at rest", func() {
+		if fn, err := vm.Get("hctx"); err == nil {
+			fn.Call(otto.NullValue())
+			vm.Call("hctx", nil)
+			if o := fn.Object(); o != nil {
+				o.Call("call", nil)
+			}
+		}
+	})
 	try("Get", func() {
 		for _, n := range []string{"tg", "tv", "ip", "Object", "nosuch"} {
 			if v, err := vm.Get(n); err == nil {
